@@ -388,7 +388,7 @@ cdef class cyVariables:
                 ``False``.
 
         """
-        if permissive:
+        if permissive and v is not None:
             self._append(v, permissive=True)
         if not self.count(v):
             raise ValueError('unknown variable {!r}'.format(v))
